@@ -166,12 +166,26 @@ Definition extractArgs (l : bytes) : list arg :=
 Section WITH_NAMES.
 Variable NM : names.
 
+(* splitVline: split at the vertical lines outside of (...), {...} and quoted literals *)
+Fixpoint split_vline_aux (p : bytes) (depth : nat) (quote : N) (cur : bytes) : list bytes :=
+  match p with
+  | [] => [rev cur]
+  | c :: r =>
+      if negb (N.eqb quote 0) then
+        split_vline_aux r depth (if N.eqb c quote then 0%N else quote) (c :: cur)
+      else if N.eqb c 34 || N.eqb c 39 || N.eqb c 96 then split_vline_aux r depth c (c :: cur)
+      else if N.eqb c 40 || N.eqb c 123 then split_vline_aux r (S depth) 0%N (c :: cur)
+      else if N.eqb c 41 || N.eqb c 125 then split_vline_aux r (pred depth) 0%N (c :: cur)
+      else if N.eqb c c_vline && Nat.eqb depth 0 then rev cur :: split_vline_aux r 0 0%N []
+      else split_vline_aux r depth 0%N (c :: cur)
+  end.
+Definition split_vline (p : bytes) : list bytes := split_vline_aux p 0 0%N [].
+
 Definition extractMods (p : bytes) : bytes * list modn :=
-  let hasVline := contains [c_vline] p in
-  let hasSet := mt re_reSet ncap_reSet p in
+  let chunks := split_vline p in
+  let hasVline := Nat.ltb 1 (List.length chunks) in
   let modNoVar := mt re_reFunction ncap_reFunction p && negb hasVline in
-  if (hasVline && negb hasSet) || modNoVar then
-    let chunks := split_byte c_vline p in
+  if hasVline || modNoVar then
     let rest := if modNoVar then chunks else tl chunks in
     let mods := flat_map (fun ch =>
                    match sub re_reMod ncap_reMod ch with
